@@ -1,18 +1,68 @@
 package main
 
-// The system-level correspondence (sys.go, Model.Sys / Props.Sys) runs as a leg of the two properties whose statements are about
-// the composed system: C01 (an accepted message is in every recipient's mailbox whatever the protocol that looks) and C14 (REST
-// answers are the store's).  A failure is reported under the property whose check ran it.
+// The composed legs — the system-level correspondence (sys.go: real components assembled by the harness against Model.Sys / Props.Sys) and the
+// assembly correspondence (asm.go / asm_bin.go: config.Process + server.FullAssembly + Services.Start, and the real cmd/inbucket binary, driven
+// over their network interfaces) — run as legs of the properties whose statements are about the composed program.  Such a leg observes many
+// properties at once; under a property's check only the oracles and correspondences that speak about THAT property are reported (legScope);
+// `./check SYS` and `./check ASM` run them stand-alone with everything in scope.
 
-import "verif/harness/internal/core"
+import (
+	"strings"
 
-func init() {
-	prev := extra["C01"]
-	extra["C01"] = func(c *core.Ctx) {
+	"verif/harness/internal/core"
+)
+
+// always in scope: the leg itself did not run (a broken correspondence whatever the property)
+var legInfra = []string{"sys-child-process", "asm-child-process", "sys-driver", "hub-driver", "asm-binary-builds", "asm-binary-starts", "binary-starts-and-listens",
+	"smtp-session-works", "pop3-session-works", "store-works", "visit-works", "monitor-is-reachable", "go-client-works", "signal-is-delivered", "no-panic", "no-handler-panic"}
+
+var legScopes = map[string][]string{
+	"C01": {"stored-once-per-acknowledged-recipient", "acknowledged-mail-is-stored", "sys-smtp-replies", "sys-final-store", "sys-store-add", "asm-final-mailboxes",
+		"mail-is-fetchable-by-address", "size-is-length"},
+	"C05": {"accept-rule", "origin-rule", "store-rule", "sys-smtp-replies", "stored-once-per-acknowledged-recipient", "acknowledged-mail-is-stored"},
+	"C14": {"sys-rest-", "rest-", "go-client-", "missing-is-404", "listed-is-fetchable", "removed-is-gone", "failed-request-changes-nothing", "request-changes-only-what-it-says",
+		"held-message-is-found", "api-is-served-under-the-base-path", "webui-", "nothing-is-served-outside-the-base-path", "root-redirects-to-the-base-path",
+		"expvar-is-served-under-the-base-path", "asm-final-mailbox-over-rest", "mail-is-fetchable-by-address", "mailbox-name-is-a-fixed-point"},
+	"C15": {"monitor-", "history-", "hub-listener-", "asm-monitor-history", "events-are-delivered"},
+	"C19": {"shutdown-completes", "drain-", "open-session-", "no-new-connection-after-shutdown", "service-failure-shuts-the-program-down", "clean-shutdown-exits-zero", "no-dropped-connection"},
+}
+
+func legScope(prop string) func(string) bool {
+	pre, ok := legScopes[prop]
+	if !ok {
+		return nil
+	}
+	return func(name string) bool {
+		for _, p := range append(append([]string{}, legInfra...), pre...) {
+			if name == p || (strings.HasSuffix(p, "-") && strings.HasPrefix(name, p)) {
+				return true
+			}
+		}
+		return false
+	}
+}
+
+func scoped(c *core.Ctx, f func()) {
+	old := c.Scope
+	c.Scope = legScope(c.Prop)
+	defer func() { c.Scope = old }()
+	f()
+}
+
+func attach(id string, leg func(c *core.Ctx)) {
+	prev := extra[id]
+	extra[id] = func(c *core.Ctx) {
 		if prev != nil {
 			prev(c)
 		}
-		sysLegN(c, 600, 8000)
+		scoped(c, func() { leg(c) })
 	}
-	extra["C14"] = func(c *core.Ctx) { sysLegN(c, 600, 8000) }
+}
+
+func init() {
+	attach("C01", func(c *core.Ctx) { sysLegN(c, 600, 8000) })
+	attach("C14", func(c *core.Ctx) { sysLegN(c, 600, 8000); asmLegN(c, 16, 200) })
+	attach("C05", func(c *core.Ctx) { asmLegN(c, 16, 200) })
+	attach("C15", func(c *core.Ctx) { asmLegN(c, 24, 300) })
+	attach("C19", func(c *core.Ctx) { asmLegN(c, 24, 300) })
 }
